@@ -8,14 +8,14 @@ NEEDS = ("dev",)
 KT_CYCLE = ["rsa4096", "ecdsa-p256", "rsa2048", "ed25519"]
 
 
-def issuance_history(chain_lens, key_types, init=None, kp_reuse=False):
+def issuance_history(chain_lens, key_types, init=None, kp_reuse=False, ending=None):
     """k consecutive issuances of one certificate into the same two paths (file name format without the key
     type), each with its own chain length and key type; short-lived certificates make every phase renew."""
     phases = []
     first = None
     for i, (cl, kt) in enumerate(zip(chain_lens, key_types)):
         doc = cfg.base_doc(key_type=kt, cert_extra={"name": "hist", "file_name_format": "{{ name }}.{{ file_type }}.{{ ext }}", "kp_reuse": kp_reuse})
-        ph = {"attempts": 1, "pre": [{"op": "ca_cfg", "ca": 0, "set": {"chain_len": cl}}]}
+        ph = {"attempts": 1, "pre": [{"op": "ca_cfg", "ca": 0, "set": dict({"chain_len": cl}, **({"chain_ending": ending} if ending else {}))}]}
         if i == 0:
             first = doc
             if init:
@@ -30,7 +30,7 @@ def issuance_history(chain_lens, key_types, init=None, kp_reuse=False):
             ph["files"] = {"main.toml": cfg.to_toml(doc)}
         phases.append(ph)
     req = cfg.scenario(first, cas=[{"cert_lifetime_s": 10 * 86400}], phases=phases)
-    req["meta"] = {"chain_lens": list(chain_lens), "key_types": list(key_types), "init": init, "kp_reuse": kp_reuse}
+    req["meta"] = {"chain_lens": list(chain_lens), "key_types": list(key_types), "init": init, "kp_reuse": kp_reuse, "ending": ending}
     return req
 
 
@@ -51,7 +51,7 @@ def judge(req, obs):
         if not served or not fin:
             out.append(("cert=served", "C02|cert=served|none", "a certificate was served in a successful attempt", "none"))
             continue
-        d = "first" if prev_len is None else ("longer->shorter" if prev_len > served[-1]["served_len"] else ("shorter->longer" if prev_len < served[-1]["served_len"] else "same"))
+        d = ("ending=%s|" % m["ending"] if m.get("ending") else "") + "first" if prev_len is None else ("longer->shorter" if prev_len > served[-1]["served_len"] else ("shorter->longer" if prev_len < served[-1]["served_len"] else "same"))
         if cert.get("sha256") != served[-1]["served_sha256"]:
             out.append(("cert=served", "C02|cert=served|%s" % d, "certificate file byte-for-byte the chain the CA returned (%d bytes)" % served[-1]["served_len"],
                         "file has %s bytes, sha256 %s.. instead of %s.." % (cert.get("len"), str(cert.get("sha256"))[:12], served[-1]["served_sha256"][:12])))
@@ -68,7 +68,7 @@ def run(ctx):
                 "different lengths, from {absent, empty, 20 kB garbage, symbolic link to a 20 kB file, dangling symbolic link}, through the real storage functions; after each write the file equals what was written "
                 "(account: same length as saved into an empty directory, and loads back equal). E1: histories of 1..3 consecutive issuances with chain lengths "
                 "{1..4}^k and alternating key types in one path, and issuances into paths that already hold an existing pair, another client's pair (secp256k1; RSA-3072 in thorough), "
-                "a truncated or an empty key file, with kp_reuse off and on; certificate file = served body, key file = CSR key.")
+                "a truncated or an empty key file, with kp_reuse off and on, and chains served with CRLF line ends, without a final end of line, with a trailing blank line or with text between the blocks; certificate file = served body, key file = CSR key.")
     depth = 3 if ctx.quick else 4
     outs = ctx.pool.map([{"op": "c02_histories", "file_type": ft, "depth": depth} for ft in ("crt", "pk", "account")], 900.0)
     for o in outs:
@@ -106,12 +106,16 @@ def run(ctx):
         for kpr in (False, True):
             for cl in ((1,), (4,)) if ctx.quick else ((1,), (4,), (1, 4), (4, 1)):
                 reqs.append(issuance_history(cl, [KT_CYCLE[1 + i] for i in range(len(cl))], init=init, kp_reuse=kpr))
+    # legal ways of ending and delimiting the served chain: the file must still be byte-for-byte the body
+    for ending in ("crlf", "noeol", "blank", "text-between"):
+        for cl in ((1,), (3,), (2, 3)):
+            reqs.append(issuance_history(cl, [KT_CYCLE[1]] * len(cl), ending=ending))
     obs = e1.run_all(ctx.pool, reqs, 300.0)
     for r, o in zip(reqs, obs):
         e1.check_obs(o)
         res.evaluations += 1
         res.transitions += len(o.get("cps", []))
-        res.state_keys.update(("issuance", r["meta"].get("init"), r["meta"].get("kp_reuse"), tuple(r["meta"]["chain_lens"][:i + 1]), tuple(r["meta"]["key_types"][:i + 1])) for i in range(len(r["meta"]["chain_lens"])))
+        res.state_keys.update(("issuance", r["meta"].get("init"), r["meta"].get("kp_reuse"), r["meta"].get("ending"), tuple(r["meta"]["chain_lens"][:i + 1]), tuple(r["meta"]["key_types"][:i + 1])) for i in range(len(r["meta"]["chain_lens"])))
         res.outcomes["issuances:" + flows.outcome_class(o)[:60]] += 1
         if res.evaluations % 17 == ctx.seed % 17:
             res.add_sample({"issuance_history": r["meta"], "cert_lens": [a.end["files"]["cert"].get("len") for a in e1.split_attempts(o["events"]) if a.end]})
